@@ -208,6 +208,12 @@ pub fn generate(rng: &mut Rng, thorough: bool) -> Vec<String> {
             v.push(format!("tzdb_offns {name} {} 999999999", t - 1));
             v.push(format!("tzdb_offns {name} {} 250000000", t - 1));
         }
+        // ZonedDateTime / Instant strings and wall-clock fields through the provider (sub-second instants too)
+        for t in instants.iter().step_by(5) {
+            let sub = match rng.below(3) { 0 => 0, 1 => 999_999_999, _ => rng.range(0, 999_999_999) };
+            v.push(format!("tzdb_zstr {name} {}", *t as i128 * 1_000_000_000 + sub));
+            if rng.chance(1, 2) { v.push(format!("tzdb_istr {name} {}", *t as i128 * 1_000_000_000 + sub)); }
+        }
         // local date-times: images of the sampled instants under the neighbouring offsets
         for t in instants.iter().step_by(3) {
             let off = z.types.get(rng.below(z.types.len() as u64) as usize).map(|x| x.0).unwrap_or(0);
@@ -272,6 +278,20 @@ pub fn eval(t: &[&str]) -> Option<String> {
             let bytes = super::c03::unhex(t[1]);
             let s = String::from_utf8_lossy(&bytes).to_string();
             Some(format!("ok {}", p.check_identifier(&s) as u8))
+        }
+        "tzdb_zstr" => {
+            // the string and the wall-clock fields of a ZonedDateTime in a named zone, through FsTzdbProvider
+            let p = FsTzdbProvider::default();
+            let r = temporal_rs::TimeZone::try_from_str(t[1]).and_then(|tz| temporal_rs::ZonedDateTime::try_new(i(t[2]), temporal_rs::Calendar::default(), tz)).and_then(|z| {
+                Ok(format!("{} | {} {} {} {} {} {} {}", z.to_string_with_provider(&p)?, z.year_with_provider(&p)?, z.month_with_provider(&p)?, z.day_with_provider(&p)?,
+                    z.hour_with_provider(&p)?, z.minute_with_provider(&p)?, z.second_with_provider(&p)?, z.offset_nanoseconds_with_provider(&p)?))
+            });
+            Some(render(r, |s| s))
+        }
+        "tzdb_istr" => {
+            let p = FsTzdbProvider::default();
+            let r = temporal_rs::TimeZone::try_from_str(t[1]).and_then(|tz| temporal_rs::Instant::try_new(i(t[2])).and_then(|x| x.to_ixdtf_string_with_provider(Some(&tz), Default::default(), &p)));
+            Some(render(r, |s| s))
         }
         "tzdb_offns" => {
             let p = FsTzdbProvider::default();
